@@ -157,32 +157,58 @@ theorem splitDash_at : ∀ (d r : Str), '-' ∉ d → splitDash (d ++ '-' :: r) 
     have ih := splitDash_at cs r (fun hm => h (List.mem_cons_of_mem _ hm))
     simp [splitDash, hc, ih]
 
+theorem find_new (par : Parent) (e : Entry) (h : e.name ∉ names par) :
+    (par ++ [e]).find? (fun x => x.name = e.name) = some e := by
+  rw [List.find?_append]
+  have : par.find? (fun x => decide (x.name = e.name)) = none := by
+    rw [List.find?_eq_none]
+    intro x hx
+    have : x.name ≠ e.name := fun hne => h (hne ▸ List.mem_map.mpr ⟨x, hx, rfl⟩)
+    simpa using this
+  rw [this]; simp
+
 /-- Provenance: a results group records its (normalised) tool and, within one file, its source; and the
-    source dataset is recovered from the group's name. -/
-theorem provenance (par : Parent) (d t : Str) (same : Bool) (hd : '-' ∉ d) (src : Entry)
-    (hsrc : par.find? (fun e => e.name = d) = some src) (hkind : src.kind = .dataset) :
+    source dataset is recovered from it - through the recorded source wherever in the file the group was put,
+    and through the group's name when it sits next to its source (e.g. a group in another file's copy). -/
+theorem provenance (par : Parent) (d t : Str) (same : Bool) (hd : '-' ∉ d) :
     ∃ par' name, createResults par d t same = .ok (par', name) ∧
       (∃ e ∈ par', e.name = name ∧ e.tool = some (normTool t) ∧ e.source = (if same then some d else none)) ∧
-      getSource par' name = .ok d := by
-  refine ⟨_, _, createResults_ok par d t same, ⟨resEntry par d t same, by simp, rfl, rfl, rfl⟩, ?_⟩
-  unfold getSource resEntry
-  simp only
-  have hdig : '-' ∉ fmt03 (nextIndex (resultsPrefix d t) par) := by
-    intro h
-    have := List.all_eq_true.mp (fmt03_spec (nextIndex (resultsPrefix d t) par)).1 '-' h
-    simp at this
-  have hrest : '-' ∉ normTool t ++ ['_'] ++ fmt03 (nextIndex (resultsPrefix d t) par) := by
-    simp only [List.mem_append, not_or]
-    exact ⟨⟨normTool_no_dash t, by simp⟩, hdig⟩
-  have hs : splitDash (resultsPrefix d t ++ fmt03 (nextIndex (resultsPrefix d t) par)) =
-      [d, normTool t ++ ['_'] ++ fmt03 (nextIndex (resultsPrefix d t) par)] := by
-    unfold resultsPrefix
-    have : d ++ ['-'] ++ normTool t ++ ['_'] ++ fmt03 (nextIndex (d ++ ['-'] ++ normTool t ++ ['_']) par) =
-        d ++ '-' :: (normTool t ++ ['_'] ++ fmt03 (nextIndex (d ++ ['-'] ++ normTool t ++ ['_']) par)) := by
-      simp [List.append_assoc]
-    rw [this, splitDash_at _ _ hd, splitDash_noDash _ (by simpa [resultsPrefix] using hrest)]
-  rw [hs]
-  simp only [List.find?_append, hsrc, Option.some_or, hkind, if_true]
+      (same = true → getSource par' name = .ok d) ∧
+      (∀ src, par.find? (fun e => e.name = d) = some src → src.kind = .dataset → getSource par' name = .ok d) := by
+  refine ⟨_, _, createResults_ok par d t same, ⟨resEntry par d t same, by simp, rfl, rfl, rfl⟩, ?_, ?_⟩
+  · intro hs
+    subst hs
+    unfold getSource
+    have := find_new par (resEntry par d t true) (fresh _ par)
+    simp only [resEntry] at this ⊢
+    rw [this]
+    rfl
+  · intro src hsrc hkind
+    unfold getSource
+    have hf := find_new par (resEntry par d t same) (fresh _ par)
+    simp only [resEntry] at hf ⊢
+    rw [hf]
+    cases same with
+    | true => rfl
+    | false =>
+      simp only [Option.bind_some, Bool.false_eq_true, if_false]
+      unfold getSourceByName
+      have hdig : '-' ∉ fmt03 (nextIndex (resultsPrefix d t) par) := by
+        intro h
+        have := List.all_eq_true.mp (fmt03_spec (nextIndex (resultsPrefix d t) par)).1 '-' h
+        simp at this
+      have hrest : '-' ∉ normTool t ++ ['_'] ++ fmt03 (nextIndex (resultsPrefix d t) par) := by
+        simp only [List.mem_append, not_or]
+        exact ⟨⟨normTool_no_dash t, by simp⟩, hdig⟩
+      have hs : splitDash (resultsPrefix d t ++ fmt03 (nextIndex (resultsPrefix d t) par)) =
+          [d, normTool t ++ ['_'] ++ fmt03 (nextIndex (resultsPrefix d t) par)] := by
+        unfold resultsPrefix
+        have : d ++ ['-'] ++ normTool t ++ ['_'] ++ fmt03 (nextIndex (d ++ ['-'] ++ normTool t ++ ['_']) par) =
+            d ++ '-' :: (normTool t ++ ['_'] ++ fmt03 (nextIndex (d ++ ['-'] ++ normTool t ++ ['_']) par)) := by
+          simp [List.append_assoc]
+        rw [this, splitDash_at _ _ hd, splitDash_noDash _ (by simpa [resultsPrefix] using hrest)]
+      rw [hs]
+      simp only [List.find?_append, hsrc, Option.some_or, hkind, if_true]
 
 example : (createIndexed [⟨"A_B_000".toList, .group, none, none⟩, ⟨"A_A_005".toList, .group, none, none⟩,
     ⟨"A_001".toList, .dataset, none, none⟩] "A".toList).toOption.map (fun r => String.ofList r.2) = some "A_002" := by
